@@ -662,9 +662,15 @@ func propTable() map[string]*PropSpec {
 			c.MaxPaths = 2000000
 			return c
 		}
-		q := []RunConfig{mk(3), mk(4)}
+		mkv := func(k int) RunConfig { // messages of one kind with views from {0,1}: claimed sender, kind and view may repeat
+			c := mk(k)
+			c.Name += "/views=2"
+			c.Params["views"] = 2
+			return c
+		}
+		q := []RunConfig{mkv(3), mk(4)}
 		q[0].RequireReach = []string{"C17.advanced"}
-		th := []RunConfig{mk(3), mk(4), mk(5)}
+		th := []RunConfig{mkv(3), mk(4), mkv(4), mk(5)}
 		th[0].RequireReach = []string{"C17.advanced"}
 		// the real worker: cached traffic that completes its height from inside the start of the round
 		fr := rc("C13_FutureRound/me=1", ".", "C13_FutureRound", map[string]int{"me": 1})
